@@ -8,6 +8,8 @@ from ..srcmodel import unparse, norm, walk_no_nested, calls_in
 from .common import is_method_call, get_kw, recv_of, node_obj, fde_guard, parent_chain, PRIOS
 from . import mergerules as mr
 
+from .common import Guard  # noqa: E402
+
 PROP = 'C15'
 DECIDED = [
     'R1: non-interference of !unsafe / !new: the safe / allow_new fields and getters are read only by their own getters, the gates (_require_safe, _require_all_new, merge(None), evaluate_node), flag maintenance (_replace_*, _get_child_kwargs, _propagate_implicit_values, constructors) and dump; no function on the merge path decides anything from them; R1b: an explicit safe / allow_new flag on a node does not block the inheritance of delete through it (propagation table).',
@@ -207,10 +209,12 @@ def r5(repo, run):
 
 
 def check(repo, run, tier):
-    r1(repo, run)
-    r2(repo, run)
-    r3r4(repo, run)
-    r5(repo, run)
+    g = Guard()
+    g(r1, repo, run)
+    g(r2, repo, run)
+    g(r3r4, repo, run)
+    g(r5, repo, run)
+    g.done()
 
 
 def mutants(repo):
